@@ -399,6 +399,163 @@ func emitDiff(g *tr.G, l, r []string, ctx int, fi *mdiff.FileInfo, tags ...strin
 	g.Emit("A "+rest, len(cs) > 0)
 }
 
+// ---------------------------------------------------------------- sweep of line texts
+//
+// The formats mark every line of a diff by its first bytes, so the property's "all newline-free
+// lines" is only exercised by line TEXTS that themselves look like markers.  The sweep takes every
+// string up to a length bound over the bytes the formats and readers give a meaning to, plus
+// random longer ones built from those bytes and from the words that open header lines, and puts
+// each one in every syntactic role a line can have in a diff: deleted, added, either side of a
+// Replace, context before/after a change — at the head, at the tail and alone in its edit — among
+// ordinary lines, so that no hunk has a one-line side (F5) and, at contexts 1 and 3, no empty
+// range (F6).  Each diff goes through Normal/Read, Unified/ReadUnified, Context (D and A lines:
+// round trip and application to Left) and, two files at a time, through a git wrapper/ReadGitPatch.
+
+var sweepBytes = []byte{'-', '+', ' ', '@', '<', '>', '\\', '*', '!', 'd', '\t', '\r'}
+var sweepWords = []string{"--- ", "+++ ", "@@ -", "diff --git ", "index ", "\\ No newline", "-- ", "***", "---",
+	// pieces that complete a header-like line
+	" @@", "1", ",", " +", "a", "c", "< ", "> ", "*** ", " ****", " ----", "***************"}
+
+// sweepTexts: every string of length <= n over sweepBytes, shortest first.
+func sweepTexts(n int) []string {
+	out := []string{""}
+	for lo := 0; n > 0; n-- {
+		hi := len(out)
+		for _, s := range out[lo:hi] {
+			for _, b := range sweepBytes {
+				out = append(out, s+string(b))
+			}
+		}
+		lo = hi
+	}
+	return out
+}
+
+func sweepRandomText(r *tr.Rand) string {
+	var b strings.Builder
+	for k := 2 + r.Intn(4); k > 0; k-- {
+		if r.Chance(1, 2) {
+			b.WriteString(tr.Pick(r, sweepWords))
+		} else {
+			b.WriteByte(tr.Pick(r, sweepBytes))
+		}
+	}
+	return b.String()
+}
+
+var sweepRoles = []string{"del", "add", "repX", "repY", "ctx"}
+
+// sweepPair builds Left and Right with the text s in the given role.  pos: 0 = s first in its
+// two-line edit, 1 = s last, 2 = s alone (a one-line edit; contexts >= 1 only).  Ordinary lines
+// never contain a sweep byte, so the diff aligns nothing with s by accident.
+func sweepPair(s, role string, pos, shift int) (l, r []string) {
+	pre := []string{"k1", "k2", "k3", "k4"}[:3+shift%2]
+	post := []string{"k5", "k6", "k7"}
+	blk := func(o string) []string {
+		switch pos {
+		case 0:
+			return []string{s, o}
+		case 1:
+			return []string{o, s}
+		}
+		return []string{s}
+	}
+	cat := func(parts ...[]string) []string { return slices.Concat(parts...) }
+	switch role {
+	case "del":
+		return cat(pre, blk("o1"), post), cat(pre, post)
+	case "add":
+		return cat(pre, post), cat(pre, blk("n1"), post)
+	case "repX":
+		return cat(pre, blk("o1"), post), cat(pre, []string{"n1", "n2"}, post)
+	case "repY":
+		return cat(pre, []string{"o1", "o2"}, post), cat(pre, blk("n1"), post)
+	}
+	// context: s right before the change (0), right after it (1), on both sides (2)
+	old, nw := []string{"o1", "o2"}, []string{"n1", "n2", "n3"}
+	switch pos {
+	case 0:
+		return cat(pre, []string{s}, old, post), cat(pre, []string{s}, nw, post)
+	case 1:
+		return cat(pre, old, []string{s}, post), cat(pre, nw, []string{s}, post)
+	}
+	return cat(pre, []string{s}, old, []string{s}, post), cat(pre, []string{s}, nw, []string{s}, post)
+}
+
+func sweepEmit(g *tr.G, s, role string, pos, shift, ctx int, fi *mdiff.FileInfo, kind string) {
+	l, r := sweepPair(s, role, pos, shift)
+	cs := chunksOf(l, r, ctx)
+	tags := []string{"sweep", "sweep-" + kind, "sweep-role-" + role, "sweep-ctx" + strconv.Itoa(ctx)}
+	if oneLineSide(cs) {
+		tags = append(tags, "sweep-one-line-side(F5 trigger; not intended)")
+	}
+	rest := tr.HexList(l) + " " + tr.HexList(r) + " " + encFI(fi) + " " + encChunks(cs)
+	g.Emit("D "+rest, true, tags...)
+	if ctx > 0 || (role != "del" && role != "add") { // at context 0 a pure deletion/insertion has an empty range (F6)
+		g.Emit("A "+rest, true, "sweep-applied")
+	}
+}
+
+func sweepGit(g *tr.G, s string, roleA string, posA int, roleB string, posB int, ctx int) {
+	in := "G 2"
+	for i, rp := range []struct {
+		role string
+		pos  int
+	}{{roleA, posA}, {roleB, posB}} {
+		l, r := sweepPair(s, rp.role, rp.pos, i)
+		junk := []string{"diff --git a/f b/f", "index 83a4f1..9bc2d0 100644"}
+		if i == 0 {
+			junk = slices.Insert(junk, 0, "commit 4a5b6c", "", "    message")
+		}
+		fi := &mdiff.FileInfo{Left: "a/f" + strconv.Itoa(i), Right: "b/f" + strconv.Itoa(i)}
+		in += " " + tr.HexList(junk) + " " + encFI(fi) + " " + encChunks(chunksOf(l, r, ctx))
+	}
+	g.Emit(in, true, "sweep", "sweep-git", "sweep-ctx"+strconv.Itoa(ctx))
+}
+
+func sweepOne(g *tr.G, i int, s, kind string, full bool) {
+	hdr := &mdiff.FileInfo{Left: "l", Right: "r"}
+	for ri, role := range sweepRoles {
+		// context 1: every position; context 3 and 0: one position each, rotating with the text
+		for pos := 0; pos < 3; pos++ {
+			if full || pos == (i+ri)%3 {
+				var fi *mdiff.FileInfo
+				if (i+ri+pos)%4 == 0 {
+					fi = hdr
+				}
+				sweepEmit(g, s, role, pos, i, 1, fi, kind)
+			}
+		}
+		sweepEmit(g, s, role, (i+ri)%3, i+1, 3, nil, kind)
+		if role != "ctx" {
+			sweepEmit(g, s, role, (i+ri)%2, i, 0, nil, kind) // two-line edits only: no one-line side
+		}
+	}
+	sweepGit(g, s, "del", 0, "repY", 1, 1)
+	sweepGit(g, s, "repX", 1, "ctx", i%3, 1)
+	sweepGit(g, s, "add", 0, "del", 2, 1)
+	if full {
+		sweepGit(g, s, "del", 1, "add", 2, 1)
+		sweepGit(g, s, []string{"del", "repX", "add"}[i%3], i%2, []string{"repY", "ctx", "del"}[i%3], (i+1)%2, 3)
+		sweepGit(g, s, "repX", i%2, "del", (i+1)%2, 0)
+	}
+}
+
+func sweep(g *tr.G) {
+	short := sweepTexts(2) // 157 texts
+	for i, s := range short {
+		sweepOne(g, i, s, "short", true)
+	}
+	if g.Thorough() {
+		for i, s := range sweepTexts(3)[len(short):] {
+			sweepOne(g, i, s, "len3", i%4 == 0)
+		}
+	}
+	for i := 0; i < g.Scale(150, 4000); i++ {
+		sweepOne(g, i, sweepRandomText(g.R), "random", false)
+	}
+}
+
 // mutate damages a rendered diff in one place.
 func mutate(r *tr.Rand, text string) string {
 	lines := strings.SplitAfter(text, "\n")
@@ -549,7 +706,7 @@ func gnuValidation(g *tr.G) {
 }
 
 func main() {
-	tr.Main("C14: every pair of texts over 3 symbols to length 3 (quick) / 4 (thorough) at contexts 0, 1, 3, each diff with and without a file header; random texts of hostile lines (empty, starting with - + < > @ space --- diff, looking like hunk headers and change commands); long texts with line numbers of 2-4 digits; synthetic chunk lists (negative and inconsistent ranges, empty edits) for the formatter/reader correspondence; rendered diffs damaged in one place and hand-written texts for the readers; git-style wrappers around 1-3 renderings. For every diff the three renderings, Read/ReadUnified of them and the re-formatted patches are recorded. A case is non-trivial when the diff has at least one chunk (readers: always).",
+	tr.Main("C14: every pair of texts over 3 symbols to length 3 (quick) / 4 (thorough) at contexts 0, 1, 3, each diff with and without a file header; a sweep of line texts - every string of length <= 2 (quick) / <= 3 (thorough) over the bytes the formats give a meaning to (- + space @ < > \\ * ! d TAB CR) and random longer ones built from them and from the words that open header lines - each as a deleted line, an added line, either side of a Replace and a context line, first, last and alone in its edit, among ordinary lines at contexts 1, 3 and 0, through Normal/Read, Unified/ReadUnified, Context and two-file git wrappers/ReadGitPatch; random texts of hostile lines (empty, starting with - + < > @ space --- diff, looking like hunk headers and change commands); long texts with line numbers of 2-4 digits; synthetic chunk lists (negative and inconsistent ranges, empty edits) for the formatter/reader correspondence; rendered diffs damaged in one place and hand-written texts for the readers; git-style wrappers around 1-3 renderings. For every diff the three renderings, Read/ReadUnified of them and the re-formatted patches are recorded. A case is non-trivial when the diff has at least one chunk (readers: always).",
 		exec, func(g *tr.G) {
 			// exhaustive tiny texts
 			alpha := []string{"a", "b", "c"}
@@ -565,6 +722,8 @@ func main() {
 					}
 				})
 			})
+			// every short text over the formats' special bytes, in every role a line can have
+			sweep(g)
 			// hostile line contents
 			for i := 0; i < g.Scale(4000, 100000); i++ {
 				sub := []string{tr.Pick(g.R, hostile), tr.Pick(g.R, hostile), tr.Pick(g.R, hostile)}
